@@ -18,26 +18,39 @@ TRACEP = ALLP - {"C19"}
 BIGPROPS = {"C01", "C02", "C03", "C04", "C05", "C06", "C11", "C12", "C13", "C17", "C19"}
 
 QUICK = [
-    ("n3", "explore", ["exh", "n=3", "levels=f1am/dbnef1a"], TRACEP - {"C15", "C16"}, True, None),
+    ("n3", "explore", ["exh", "n=3", "levels=f1a/dbnef1a"], TRACEP - {"C15", "C16", "C20"}, True, None),
+    ("n3m", "explore", ["exh", "n=3", "levels=f1am/dbf1am"], {"C20"}, True, None),
     ("n3uses", "explore", ["exh", "n=3", "uses=none", "levels=f1/dbne"], {"C01", "C03", "C04", "C11", "C12"}, True, None),
     ("n3stamp", "explore", ["exh", "n=3", "cmp=both", "levels=f1a/dbf1a/-"], {"C15", "C04", "C09", "C12"}, True, None),
-    ("n3flaky", "explore", ["exh", "n=3", "cmp=both", "levels=-/bdk/-"], {"C16", "C06"}, True, None),
+    ("n3flaky", "explore", ["exh", "n=3", "cmp=both", "levels=-/bdk/-"], {"C16", "C06", "C08"}, True, None),
     ("n3decl", "explore", ["exh", "n=3", "levels=p5/dbnep5"], {"C14"}, True, None),
-    ("eph5", "explore", ["exh", "n=5", "filter=eph5", "stride=23", "levels=-/db", "steps=0"], {"C02", "C01", "C04", "C05"}, False, None),
+    # beyond the exhaustive bound: every 4-job graph with two Ephemerals one of which feeds a
+    # non-Ephemeral job, and a slice (by seed) of the 5-job graphs with an Ephemeral chain; clean
+    # build, then every single delete / bump with every single failure; two seeded schedules
+    ("n4e2", "explore", ["exh", "n=4", "filter=eph2", "levels=-/dbf1/-", "paths=2", "steps=0"],
+     TRACEP - {"C14", "C15", "C16", "C20"}, False, None),
+    ("eph5", "explore", ["exh", "n=5", "filter=eph5", "stride=49", "levels=-/dbf1/-", "paths=2", "steps=0"],
+     TRACEP - {"C14", "C15", "C16", "C20"}, False, None),
+    ("n4stamp", "explore", ["exh", "n=4", "filter=eph2", "stride=3", "cmp=both", "levels=-/dbf1/-", "paths=1", "steps=0"],
+     {"C15", "C16"}, False, None),
     ("big", "big", ["sizes=12,24,48,120,1200", "full=12"], {"C19"}, False, BIGPROPS),
 ]
 
 THOROUGH = [
-    ("n3", "explore", ["exh", "n=3", "levels=f2am/dbnerf1a/dbf1", "double=1"], TRACEP - {"C15", "C16"}, True, None),
+    ("n3", "explore", ["exh", "n=3", "levels=f2a/dbnerf1a/db"], TRACEP - {"C15", "C16", "C20"}, True, None),
+    ("n3m", "explore", ["exh", "n=3", "levels=f1am/dbnef1am"], {"C20"}, True, None),
     ("n3uses", "explore", ["exh", "n=3", "uses=mix", "levels=f1/dbne/db"], {"C01", "C03", "C04", "C11", "C12"}, True, None),
     ("n3stamp", "explore", ["exh", "n=3", "cmp=both", "levels=f1a/dbnef1a/db"], {"C15", "C04", "C09", "C12"}, True, None),
-    ("n3flaky", "explore", ["exh", "n=3", "cmp=both", "levels=-/bdkf1/k"], {"C16", "C06"}, True, None),
+    ("n3flaky", "explore", ["exh", "n=3", "cmp=both", "levels=-/bdkf1/k"], {"C16", "C06", "C08"}, True, None),
     ("n3decl", "explore", ["exh", "n=3", "levels=p9/dbnep9"], {"C14"}, True, None),
     ("n4", "explore", ["exh", "n=4", "levels=f1a/dbf1", "steps=0", "maxstates=4000"], TRACEP - {"C15", "C16", "C20"}, True, None),
-    ("n4stamp", "explore", ["exh", "n=4", "cmp=both", "stride=5", "levels=f1/dbf1/-", "steps=0"], {"C15", "C16"}, False, None),
-    ("n4flaky", "explore", ["exh", "n=4", "cmp=both", "stride=5", "levels=-/bdk/-", "steps=0"], {"C16"}, False, None),
-    ("eph5", "explore", ["exh", "n=5", "filter=eph5", "stride=3", "levels=-/db", "steps=0"], {"C02", "C01", "C03", "C04", "C05", "C13", "C14"}, False, None),
-    ("rnd6", "explore", ["random", "n=6", "count=300", "levels=f1/dbnef1/db", "steps=0", "maxstates=3000"], TRACEP - {"C15", "C16", "C20"}, False, None),
+    ("n4e2", "explore", ["exh", "n=4", "filter=eph2", "levels=f1/dbnef1/db", "paths=3", "steps=0"],
+     TRACEP - {"C14", "C15", "C16", "C20"}, False, None),
+    ("n4stamp", "explore", ["exh", "n=4", "filter=eph2", "cmp=both", "levels=f1/dbf1/-", "paths=2", "steps=0"], {"C15", "C16"}, False, None),
+    ("n4flaky", "explore", ["exh", "n=4", "filter=eph2", "cmp=both", "levels=-/bdk/-", "paths=2", "steps=0"], {"C16"}, False, None),
+    ("eph5", "explore", ["exh", "n=5", "filter=eph5", "stride=5", "levels=-/dbf1/-", "paths=2", "steps=0"],
+     TRACEP - {"C14", "C15", "C16", "C20"}, False, None),
+    ("rnd6", "explore", ["random", "n=6", "count=400", "levels=f1/dbnef1/db", "paths=3", "steps=0"], TRACEP - {"C15", "C16", "C20"}, False, None),
     ("big", "big", ["sizes=12,24,48,120,1200,12000", "full=48"], {"C19"}, False, BIGPROPS),
 ]
 
@@ -46,6 +59,13 @@ def table(tier):
     return THOROUGH if tier == "thorough" else QUICK
 
 
+# families whose every recorded transition is also compared with the model PPGEngine (strict
+# conformance, reported as DRIFT): all of them in the thorough tier, the exhaustive 3-job ones in
+# the quick tier
+QUICK_STRICT = {"n3", "n3m", "n3uses", "n3stamp", "n3flaky", "n3decl"}
+
+
 def for_property(prop, tier):
-    return [{"name": n, "binary": b, "args": a, "exhaustive": ex, "eval": (ev or {prop})}
+    return [{"name": n, "binary": b, "args": a, "exhaustive": ex, "eval": (ev or {prop}),
+             "strict": b == "explore" and (tier == "thorough" or n in QUICK_STRICT)}
             for (n, b, a, ps, ex, ev) in table(tier) if prop in ps]
